@@ -157,7 +157,11 @@ def translation_checks(ctx, rnd):
         if i % 2:
             # translated in place: the same object, already used at the old position, is assigned the new parameters
             moved = geom.build(s, geom.Frame(U, 1.0, 0.0, 0.0, av))
-            _ = (moved.bounding_box, moved.to_mask(mode='center') if s['k'] not in ('point', 'text', 'line') else None)
+            try:
+                _ = (moved.bounding_box, moved.to_mask(mode='center') if s['k'] not in ('point', 'text', 'line') else None)
+            except Exception as ex:  # noqa
+                ctx.violation(f'C15|translate-mask|{kind_sig(s)}|center|{type(ex).__name__}', f'to_mask raised {ex!r}', {'shape': s, 'U': U, 'angle_variant': av})
+                continue
             geom._assign_from(moved, b)
             b = moved
         ba, bb = a.bounding_box, b.bounding_box
@@ -174,8 +178,13 @@ def translation_checks(ctx, rnd):
         if s['k'] in ('circle', 'ellipse'):
             modes += [('exact', 1)]
         for mode, sub in modes:
-            ma = a.to_mask(mode=mode, subpixels=sub)
-            mb = b.to_mask(mode=mode, subpixels=sub)
+            try:
+                ma = a.to_mask(mode=mode, subpixels=sub)
+                mb = b.to_mask(mode=mode, subpixels=sub)
+            except Exception as ex:  # noqa
+                ctx.violation(f'C15|translate-mask|{kind_sig(s)}|{mode}|{type(ex).__name__}', f'to_mask raised {ex!r} for the region or its translate by ({tx}, {ty})',
+                              {'shape': s, 'U': U, 'translation': [tx, ty], 'mode': mode, 'subpixels': sub, 'angle_variant': av})
+                continue
             same = ma.data.shape == mb.data.shape and np.array_equal(ma.data, mb.data, equal_nan=True)
             if not same and mode == 'subpixels' and s['k'] == 'polygon':
                 # polygon kernels sample in absolute coordinates: only samples exactly on an edge may flip
